@@ -155,7 +155,8 @@ Section ExecReport.
           else (nupdate (c_src cd) (m_sender m) (add64 e 1) exp1, true)
       end.
 
-  (* ---- checkMessage: executed -> token data -> nonce (advances the expected nonce) -> too costly ---- *)
+  (* ---- checkMessage (after repair F14a): executed -> token data -> too costly -> nonce (advances the expected
+     nonce).  A message that is skipped for any reason no longer advances its sender's expectation. ---- *)
   Definition check_message (exp : nmap) (cd : cdata) (idx : nat) (m : msg) : res (nmap * bool) :=
     if memN (m_seq m) (c_exec cd) then Ok (exp, false)           (* AlreadyExecuted *)
     else
@@ -163,12 +164,35 @@ Section ExecReport.
       | None => Err                                              (* token data index out of range *)
       | Some td =>
           if negb (td_ready td) then Ok (exp, false)             (* TokenDataNotReady *)
+          else if memN (m_id m) (c_costly cd) then Ok (exp, false)      (* TooCostly *)
           else
             let '(exp1, okn) := check_nonce exp cd m in
             if negb okn then Ok (exp1, false)
-            else if memN (m_id m) (c_costly cd) then Ok (exp1, false)   (* TooCostly *)
             else Ok (exp1, true)                                 (* ReadyToExecute *)
       end.
+
+  (* the order before the repair: executed -> token data -> nonce -> too costly.  Kept for the refutation. *)
+  Definition check_message_unfixed (exp : nmap) (cd : cdata) (idx : nat) (m : msg) : res (nmap * bool) :=
+    if memN (m_seq m) (c_exec cd) then Ok (exp, false)
+    else
+      match nth_error (c_td cd) idx with
+      | None => Err
+      | Some td =>
+          if negb (td_ready td) then Ok (exp, false)
+          else
+            let '(exp1, okn) := check_nonce exp cd m in
+            if negb okn then Ok (exp1, false)
+            else if memN (m_id m) (c_costly cd) then Ok (exp1, false)
+            else Ok (exp1, true)
+      end.
+  Fixpoint check_all_unfixed (exp : nmap) (cd : cdata) (i : nat) (ms : list msg) : res (nmap * list nat) :=
+    match ms with
+    | [] => Ok (exp, [])
+    | m :: ms' =>
+        rbind (check_message_unfixed exp cd i m) (fun x =>
+        rbind (check_all_unfixed (fst x) cd (S i) ms') (fun y =>
+        Ok (fst y, if snd x then i :: snd y else snd y)))
+    end.
 
   Fixpoint check_all (exp : nmap) (cd : cdata) (i : nat) (ms : list msg) : res (nmap * list nat) :=
     match ms with
@@ -253,11 +277,14 @@ Section ExecReport.
     | _ => BErr
     end.
 
-  (* ---- bookkeeping used to state the F14 input class: the indices whose message advanced the expected nonce
-     during the checkMessage pass, and the indices finally placed in the report ---- *)
+  (* ---- bookkeeping used to state the F14 input class (what is left of it after repair F14a: the size / gas
+     fallback drops a sequenced message after the nonce chain was fixed): the indices whose message advanced the
+     expected nonce during the checkMessage pass — after the repair these are exactly the ready sequenced messages —
+     and the indices finally placed in the report ---- *)
   Definition advances (exp : nmap) (cd : cdata) (idx : nat) (m : msg) : bool :=
     negb (memN (m_seq m) (c_exec cd)) &&
     match nth_error (c_td cd) idx with Some td => td_ready td | None => false end &&
+    negb (memN (m_id m) (c_costly cd)) &&
     negb (N.eqb (m_nonce m) 0) && snd (check_nonce exp cd m).
   Fixpoint adv_all (exp : nmap) (cd : cdata) (i : nat) (ms : list msg) : list nat :=
     match ms with
@@ -280,12 +307,17 @@ Section ExecReport.
         end
     | _ => []
     end.
-  (* some message advanced its sender's expected nonce and is not in the report (no leak when Add fails: the
-     whole outcome is abandoned then) *)
-  Definition nonce_leak (st : bstate) (cd : cdata) : bool :=
+  (* What is left of F14 after repair F14a, as an input class: the size / gas fallback drops a ready sequenced
+     message (nonce <> 0) — its nonce was already counted by checkMessageNonce, so its successors may be reported
+     without it.  (False when Add fails: the whole outcome is abandoned then.) *)
+  Definition ready_of (st : bstate) (cd : cdata) : list nat :=
+    match check_all (b_exp st) cd 0 (c_msgs cd) with Ok (_, r) => r | _ => [] end.
+  Definition sequenced_at (cd : cdata) (i : nat) : bool :=
+    match nth_error (c_msgs cd) i with Some m => negb (N.eqb (m_nonce m) 0) | None => false end.
+  Definition fallback_drop (st : bstate) (cd : cdata) : bool :=
     match build_single st cd with
     | BErr => false
-    | _ => existsb (fun i => negb (mem_nat i (included st cd))) (adv_all (b_exp st) cd 0 (c_msgs cd))
+    | _ => existsb (fun i => sequenced_at cd i && negb (mem_nat i (included st cd))) (ready_of st cd)
     end.
 
   (* ---- builder.go Add: returns the new builder state and the (possibly updated) commit data ---- *)
@@ -297,6 +329,30 @@ Section ExecReport.
         Ok (mkB (b_size st1) (b_gas st1) (b_exp st1) (b_reports st1 ++ [r]), cd1)
     end.
   Definition build (st : bstate) : list creport := b_reports st.
+
+  (* buildSingleChainReport / Add with the checkMessage order before repair F14a *)
+  Definition build_single_unfixed (st : bstate) (cd : cdata) : bres :=
+    match check_all_unfixed (b_exp st) cd 0 (c_msgs cd) with
+    | Ok (exp1, ready) =>
+        let st1 := mkB (b_size st) (b_gas st) exp1 (b_reports st) in
+        match ready with
+        | [] => BEmpty st1
+        | _ =>
+            match choose st1 cd ready with
+            | Ok (Some (_, r, meta)) => finalize st1 r cd meta
+            | Ok None => BEmpty st1
+            | _ => BErr
+            end
+        end
+    | _ => BErr
+    end.
+  Definition add_unfixed (st : bstate) (cd : cdata) : res (bstate * cdata) :=
+    match build_single_unfixed st cd with
+    | BEmpty st1 => Ok (st1, cd)
+    | BErr => Err
+    | BReport st1 r cd1 =>
+        Ok (mkB (b_size st1) (b_gas st1) (b_exp st1) (b_reports st1 ++ [r]), cd1)
+    end.
 
   (* ---- execute/plugin.go selectReport with this builder (loop body: select_loop_with above) ---- *)
   Definition select_loop : bstate -> list cdata -> res (bstate * list cdata) := select_loop_with add.
